@@ -247,6 +247,49 @@ func init() {
 			emit("run did not return")
 		}
 	})
+	// gb.dbgser CYCLES: the command line's debugging configuration - Config.DebugCPU with os.Stdout as the serial writer.  The
+	// process's standard output is pointed at a scratch file while the machine exists; the guest streams the bytes F0..FF
+	// to SB; the bytes >= F0 found in that file afterwards (the instruction trace is plain ASCII) are the ones delivered.
+	register("gb.dbgser", func(a []string) {
+		f, err := ioutil.TempFile("", "verif-stdout-*")
+		if err != nil {
+			panic(err)
+		}
+		defer os.Remove(f.Name())
+		old := os.Stdout
+		os.Stdout = f
+		restore := func() { os.Stdout = old }
+		defer restore()
+		img := make([]byte, 0x8000)
+		img[0x100], img[0x101] = 0x18, 0xfe
+		rf, err := ioutil.TempFile("", "verif-rom-*.gb")
+		if err != nil {
+			panic(err)
+		}
+		rf.Write(img)
+		rf.Close()
+		defer os.Remove(rf.Name())
+		g := &gbInst{gb: gameboy.New(gameboy.Config{RomFilename: rf.Name(), DisableVideoOutput: true, DisableAudioOutput: true,
+			DebugCPU: true, SerialWriter: os.Stdout})}
+		// LD A,F0 ; loop: LDH (01),A ; INC A ; JR NZ,loop ; JR start
+		for i, b := range []byte{0x3e, 0xf0, 0xe0, 0x01, 0x3c, 0x20, 0xfb, 0x18, 0xf7} {
+			g.gb.VMapper().Write(uint16(0xc000+i), b)
+		}
+		g.gb.VCPU().VSetRegs(cpu.VRegs{A: 1, SP: 0xdfff, PC: 0xc000})
+		for i := 0; i < ai(a, 1); i++ {
+			g.cycle()
+		}
+		restore()
+		f.Close()
+		data, _ := ioutil.ReadFile(f.Name())
+		var sb strings.Builder
+		for _, b := range data {
+			if b >= 0xf0 {
+				sb.WriteString(sprintf("%02x", b))
+			}
+		}
+		emit("dbgser %s", sb.String())
+	})
 	// gb.rundeadline I MS : like gb.runcancel with a context that ends by its deadline (context.WithTimeout), the way the
 	// repository's own ROM runners stop the machine
 	register("gb.rundeadline", func(a []string) {
